@@ -773,6 +773,11 @@ class Interp:
         return h, T
 
     def set_item(self, base, key, v):
+        if isinstance(base, VStr) and base.s == '__kwargs__' and isinstance(key, VStr):
+            # kwargs['name'] = value on the function's own **kwargs (whose other content is unknown): remembered as a ghost list
+            items = self.st.ghost.get('_kwargs_items', VTuple([]))
+            self.st.ghost['_kwargs_items'] = VTuple([it for it in items.items if it.items[0].s != key.s] + [VTuple([key, v])])
+            return
         if isinstance(base, VObj) and self.st.heap[base.loc].cls == '__strdict__':
             if not isinstance(key, VStr):
                 raise Unsupported('symbolic key into a string-keyed dict')
@@ -1533,8 +1538,6 @@ class Interp:
         if isinstance(f, VBound):
             return self.call_method(f.recv, f.name, args, kwargs, fr)
         if isinstance(f, VFunc):
-            if isinstance(kwargs.get('**'), VStr):
-                kwargs = {k: v for k, v in kwargs.items() if k != '**'}
             return self.call_function(f, args, kwargs, fr)
         if isinstance(f, VCallable):
             return self.call_opaque(f, args, kwargs)
@@ -1583,6 +1586,9 @@ class Interp:
         h = self.summaries.get(qual)
         if h is not None and not getattr(self, 'verifying', None) == ('body', qual, id(fr)):
             return h(self, f.bound, args, kwargs)
+        if isinstance(kwargs.get('**'), VStr):
+            # the caller passes its own (unknown) **kwargs on: a summary sees the marker, an inlined body does not need it
+            kwargs = {k: v for k, v in kwargs.items() if k != '**'}
         if qual in self.inline or '<locals>' in qual or '<lambda>' in qual:
             return self.run_function(f, args, kwargs)
         h = self.spec_funcs.get('call_default')
